@@ -506,3 +506,20 @@ package notify
 //@   at call Context).Value assert [read-under-its-own-key] arg0 == ctx && typeis(arg1, notifyKey) && unbox(arg1, notifyKey) == keyNflogStore
 //@   ensures [the-stored-value-of-its-type] count("Context).Value") == 1 && result1 == typeis(ret("Context).Value"), *nflog.Store) && (result1 ==> result0 == unbox(ret("Context).Value"), *nflog.Store))
 //@   noeffect Context).Value
+
+// C20/C01: the routing stage hands the batch to the pipeline registered under the receiver named in the context -
+// unchanged and to no other; a missing receiver name or pipeline is an error, never a silent drop.
+//@ func (RoutingStage).Exec
+//@   props C20 C07
+//@   nosafe
+//@   requires tracer != nil
+//@   after call Tracer).Start assume res0 != nil && res1 != nil
+//@   at call Stage).Exec assert [the-pipeline-of-the-named-receiver] ret1("notify.ReceiverName") && (ret("notify.ReceiverName") in rs) && arg0 == rs[ret("notify.ReceiverName")] && arg3 == alerts
+//@   ensures [its-result-is-the-stage's] called("Stage).Exec") ==> result1 == ret1("Stage).Exec") && result2 == ret2("Stage).Exec")
+//@   ensures [no-silent-drop] !called("Stage).Exec") ==> result2 != nil && result1 == nil
+//@   ensures [known-receiver-is-served] called("notify.ReceiverName") && ret1("notify.ReceiverName") && (ret("notify.ReceiverName") in rs) ==> count("Stage).Exec") == 1
+//@   opaque notify.ReceiverName
+//@   noeffect notify.ReceiverName Stage).Exec Tracer).Start Span).End
+//@ func (NotifyReason).shouldNotify
+//@   props C04
+//@   ensures [everything-but-none] result == (r != ReasonDoNotNotify)
